@@ -227,6 +227,14 @@ def gen_e2e_case(rng, n):
     case = {'kind': 'e2e', 'cls': cls, 'stage': stage, 'as_cfg': rng.random() < 0.4, 'config': enc(cfg, (), []), 'plants': plants,
             'meta': cls in ('VideoIn', 'VideoOut')}
     if cls == 'VideoIn' and rng.random() < 0.4: case['open_fail'] = rng.randint(0, 3)
+    if cls == 'VideoOut' and rng.random() < 0.6:
+        # the filter-wide defaults of VideoOut (documented options): they reach every writer, file or stream
+        glob = {}
+        if rng.random() < 0.6: glob['fps'] = rng.choice([15, True, 30])      # (no floats: the replayable case encoding has none)
+        if rng.random() < 0.5: glob['segtime'] = rng.choice([1, 2, '1:00', '0:30'])
+        if rng.random() < 0.3: glob['bgr'] = rng.choice([True, False])
+        if rng.random() < 0.3: glob['params'] = {'crf': 23}
+        cfg.update(glob); case['config'] = enc(cfg, (), [])
     if stage == 'loop':
         # an exception inside the loop whose message quotes a URI (what cv2 / paho / requests errors do), with loop_exc on or off and the
         # logger at INFO or DEBUG: whatever Filter.run() writes about it (message, traceback) is captured
@@ -384,6 +392,20 @@ def run_e2e(env, case):
                             # the 'video serve: …' line of an RTSP writer (WriteGear replaced by a fake)
                             for o in f.config.outputs:
                                 if o.output.startswith('rtsp://'): env.video_out.VideoWriter(o.output, fps=15.0).stop()
+                            # and the filter's own way to its writers: setup() (fixed fps) or the first frames (source fps), WriteGear replaced by a fake
+                            try:
+                                f.setup(f.config)
+                                from openfilter.filter_runtime.frame import Frame
+                                import numpy as np
+                                tops = {(o.get('topic') or 'main') for o in f.config.outputs}
+                                for k in range(2):
+                                    f.process({t: Frame(np.zeros((4, 6, 3), np.uint8), {'meta': {'src_fps': 15.0, 'id': k}}, 'BGR') for t in tops})
+                            except Exception as e:
+                                obs['errors'].append('setup:' + type(e).__name__)
+                                logging.getLogger('openfilter.filter_runtime.filter').error(env.hu(str(e)))      # what Filter.run() does with it
+                            finally:
+                                try: f.shutdown()
+                                except Exception: pass
                         elif case.get('meta'):
                             if case.get('open_fail') is not None:     # one of the cameras refuses to open: whatever setup() logs on that path is checked too
                                 srcs = [x.source for x in f.config.sources]
